@@ -4,6 +4,7 @@
 import PyModeS.Proofs.Bits
 import PyModeS.Model.Misc
 import PyModeS.Proofs.Uplink.Loop
+import PyModeS.Proofs.Uplink.Fields
 namespace PyModeS.C18
 
 /-- `uplink_fields` reports the same PR and interrogator code as `pr` / `ic` for UF 11, for every frame. -/
@@ -75,5 +76,418 @@ example : Uplink.uplinkFrame (hex2bin "5D484FDE") 0xABCDEF = "5D484FDE6F3A97".to
   decide +kernel
 example : (hex2bin "5D484FDE").length % 4 = 0 ∧ 32 ≤ (hex2bin "5D484FDE").length ∧
     (0xABCDEF : Nat) < 2 ^ 24 ∧ Uplink.clmul 0xABCDEF Spec.G = 225891465055895 := by decide +kernel
+
+/-! ### the field decoders as bit fields of the frame
+
+  Positions are 0-based half-open slices (`slice a b bits`, MSB first), i.e. Annex 10 bit numbers
+  minus one: UF 0–5, PR 5–9 and IC 9–13, CL 13–16 (UF 11); RR 8–13, DI 13–16, and inside SD
+  (16–32): IIS 16–20, RRS 20–24 and LOS bit 25 (DI = 7; LOS also for DI = 1), SIS 16–22, LSS bit 22
+  and RRS 23–27 (DI = 3).  The byte/mask lemmas are in `Proofs/Uplink/Fields.lean`
+  (`Uplink.di_eq_field` … `Uplink.lss_decide`).  The hypotheses `16 ≤ bits.length` /
+  `32 ≤ bits.length` hold for the 56- and 112-bit interrogations. -/
+
+open Uplink in
+/-- each mask expression of `uplink.py` is the value of a bit field (restated from
+    `Proofs/Uplink/Fields.lean`) -/
+theorem byteAt_eq_fields (bits : Bits) (h32 : 32 ≤ bits.length) :
+    byteAt bits 1 &&& 0x7 = bin2int (slice 13 16 bits) ∧
+    (byteAt bits 1 >>> 3) &&& 0x1F = bin2int (slice 8 13 bits) ∧
+    byteAt bits 2 &&& 0x0F = bin2int (slice 20 24 bits) ∧
+    ((byteAt bits 2 &&& 0x1) <<< 3) ||| ((byteAt bits 3 &&& 0xE0) >>> 5) = bin2int (slice 23 27 bits) ∧
+    (byteAt bits 2 >>> 4) &&& 0xF = bin2int (slice 16 20 bits) ∧
+    (byteAt bits 2 >>> 2) &&& 0x3F = bin2int (slice 16 22 bits) ∧
+    ((byteAt bits 3 &&& 0x40) >>> 6 = 1 ↔ bits[25]? = some true) ∧
+    ((byteAt bits 2 &&& 0x2) >>> 1 = 1 ↔ bits[22]? = some true) ∧
+    ((byteAt bits 0 &&& 0x7) <<< 1) ||| ((byteAt bits 1 &&& 0x80) >>> 7) = bin2int (slice 5 9 bits) ∧
+    (byteAt bits 1 >>> 3) &&& 0xF = bin2int (slice 9 13 bits) :=
+  ⟨di_eq_field bits (by omega), rr_eq_field bits (by omega), rrs7_eq_field bits h32,
+    rrs3_eq_field bits h32, iis_eq_field bits h32, sis_eq_field bits h32, los_iff_bit bits h32,
+    lss_iff_bit bits h32, pr_eq_field bits (by omega), ic11_eq_field bits (by omega)⟩
+
+/-- `uf()`: the 5-bit field, capped at 24 (`UF 24` has a 2-bit format code) -/
+theorem ufB_spec (bits : Bits) : ufB bits = min (bin2int (slice 0 5 bits)) 24 := rfl
+
+theorem rollCall_ne_11 {bits : Bits} (hr : isRollCall (ufB bits) = true) : ufB bits ≠ 11 := by
+  intro h; rw [h] at hr; exact absurd hr (by decide)
+
+/-- for `n < 16`, `hexDigitStr n` is the single upper-case hex digit of `n` -/
+theorem hexDigitStr_lt16 : ∀ n, n < 16 → hexDigitStr n = String.singleton (hexDigitU n) := by
+  decide
+
+/-- `pr()`: bits 5–8 for UF 11, `None` otherwise -/
+theorem uplinkPr_spec (bits : Bits) (h16 : 16 ≤ bits.length) :
+    uplinkPr bits = if ufB bits = 11 then some (bin2int (slice 5 9 bits)) else none := by
+  unfold uplinkPr
+  rw [Uplink.pr_eq_field bits h16]
+
+/-- `ic()` for UF 11: code label CL (bits 13–15) 0 → `II` + IC (bits 9–12); CL 1–4 → `SI` +
+    (IC + 16·(CL−1)); other CL → the empty string -/
+theorem uplinkIc_spec_uf11 (bits : Bits) (h16 : 16 ≤ bits.length) (h : ufB bits = 11) :
+    uplinkIc bits = some (
+      if bin2int (slice 13 16 bits) = 0 then "II" ++ toString (bin2int (slice 9 13 bits))
+      else if bin2int (slice 13 16 bits) ≤ 4 then
+        "SI" ++ toString (bin2int (slice 9 13 bits) + 16 * (bin2int (slice 13 16 bits) - 1))
+      else "") := by
+  unfold uplinkIc
+  simp only [h, isRollCall, if_true]
+  rw [Uplink.di_eq_field bits h16, Uplink.ic11_eq_field bits h16]
+  generalize bin2int (slice 13 16 bits) = cl
+  generalize bin2int (slice 9 13 bits) = ic
+  match cl with
+  | 0 | 1 | 2 | 3 | 4 => simp [icSwitcher]
+  | n + 5 =>
+    have h1 : ¬ (n + 5 = 0) := by omega
+    have h2 : ¬ (n + 5 ≤ 4) := by omega
+    simp [icSwitcher, h2]
+
+/-- `ic()` for UF 4/5/20/21: DI ∈ {0, 1, 7} → `II` + IIS (bits 16–19); DI = 3 → `SI` + SIS
+    (bits 16–21); other DI → `None` -/
+theorem uplinkIc_spec_rollcall (bits : Bits) (h32 : 32 ≤ bits.length)
+    (hr : isRollCall (ufB bits) = true) :
+    uplinkIc bits =
+      if bin2int (slice 13 16 bits) = 0 ∨ bin2int (slice 13 16 bits) = 1 ∨ bin2int (slice 13 16 bits) = 7
+        then some ("II" ++ toString (bin2int (slice 16 20 bits)))
+      else if bin2int (slice 13 16 bits) = 3 then some ("SI" ++ toString (bin2int (slice 16 22 bits)))
+      else none := by
+  unfold uplinkIc
+  simp only [hr, rollCall_ne_11 hr, if_true, if_false]
+  rw [Uplink.di_eq_field bits (by omega), Uplink.iis_eq_field bits h32, Uplink.sis_eq_field bits h32]
+
+/-- `bds()`: for UF 4/5/20/21 with RR (bits 8–12) > 15, the hex digit of RR − 16 followed by the
+    hex digit of RRS (DI = 7: bits 20–23; DI = 3: bits 23–26; other DI: 0); `None` otherwise -/
+theorem uplinkBds_spec (bits : Bits) (h32 : 32 ≤ bits.length) :
+    uplinkBds bits =
+      if isRollCall (ufB bits) = true ∧ 15 < bin2int (slice 8 13 bits) then
+        some (hexDigitStr (bin2int (slice 8 13 bits) - 16) ++
+          hexDigitStr (if bin2int (slice 13 16 bits) = 7 then bin2int (slice 20 24 bits)
+            else if bin2int (slice 13 16 bits) = 3 then bin2int (slice 23 27 bits) else 0))
+      else none := by
+  simp only [uplinkBds]
+  rw [Uplink.di_eq_field bits (by omega), Uplink.rr_eq_field bits (by omega),
+    Uplink.rrs7_eq_field bits h32, Uplink.rrs3_eq_field bits h32]
+  by_cases hr : isRollCall (ufB bits) = true
+  · by_cases h : 15 < bin2int (slice 8 13 bits)
+    · simp [hr, h]
+    · simp [hr, h]
+  · simp [hr]
+
+/-- `lockout()`: for UF 4/5/20/21, DI ∈ {1, 7} → LOS (bit 25); DI = 3 → LSS (bit 22); other DI →
+    `False`; `None` for the other formats -/
+theorem uplinkLockout_spec (bits : Bits) (h32 : 32 ≤ bits.length) :
+    uplinkLockout bits =
+      if isRollCall (ufB bits) = true then
+        some (if bin2int (slice 13 16 bits) = 1 ∨ bin2int (slice 13 16 bits) = 7 then bits.getD 25 false
+          else if bin2int (slice 13 16 bits) = 3 then bits.getD 22 false else false)
+      else none := by
+  simp only [uplinkLockout]
+  rw [Uplink.di_eq_field bits (by omega), Uplink.los_decide bits h32, Uplink.lss_decide bits h32]
+  by_cases hr : isRollCall (ufB bits) = true
+  · by_cases h1 : bin2int (slice 13 16 bits) = 1 ∨ bin2int (slice 13 16 bits) = 7
+    · simp [hr, h1]
+    · by_cases h3 : bin2int (slice 13 16 bits) = 3
+      · simp [hr, h3]
+      · simp [hr, h1, h3]
+  · simp [hr]
+
+/-- the record of `uplink_fields()` on a roll-call interrogation (UF 4/5/20/21), field by field in
+    terms of the bit fields -/
+theorem uplinkFields_spec_rollcall (bits : Bits) (h32 : 32 ≤ bits.length)
+    (hr : isRollCall (ufB bits) = true) :
+    uplinkFields bits =
+      { di := some (bin2int (slice 13 16 bits))
+        ic := if bin2int (slice 13 16 bits) = 0 ∨ bin2int (slice 13 16 bits) = 1 ∨
+                bin2int (slice 13 16 bits) = 7 then "II" ++ toString (bin2int (slice 16 20 bits))
+              else if bin2int (slice 13 16 bits) = 3 then "SI" ++ toString (bin2int (slice 16 22 bits))
+              else ""
+        los := if bin2int (slice 13 16 bits) = 1 ∨ bin2int (slice 13 16 bits) = 7 then bits.getD 25 false
+               else if bin2int (slice 13 16 bits) = 3 then bits.getD 22 false else false
+        pr := none
+        rr := some (bin2int (slice 8 13 bits))
+        rrs := if bin2int (slice 13 16 bits) = 7 then some (bin2int (slice 20 24 bits))
+               else if bin2int (slice 13 16 bits) = 3 then some (bin2int (slice 23 27 bits)) else none
+        bds := if 15 < bin2int (slice 8 13 bits) then
+                 hexDigitStr (bin2int (slice 8 13 bits) - 16) ++
+                 hexDigitStr (if bin2int (slice 13 16 bits) = 7 then bin2int (slice 20 24 bits)
+                   else if bin2int (slice 13 16 bits) = 3 then bin2int (slice 23 27 bits) else 0)
+               else "" } := by
+  simp only [uplinkFields, hr, rollCall_ne_11 hr, if_true, if_false]
+  rw [Uplink.di_eq_field bits (by omega), Uplink.rr_eq_field bits (by omega),
+    Uplink.rrs7_eq_field bits h32, Uplink.rrs3_eq_field bits h32, Uplink.iis_eq_field bits h32,
+    Uplink.sis_eq_field bits h32, Uplink.los_decide bits h32, Uplink.lss_decide bits h32]
+  generalize bin2int (slice 13 16 bits) = di
+  have hc : di = 0 ∨ di = 1 ∨ di = 7 ∨ di = 3 ∨ (di ≠ 0 ∧ di ≠ 1 ∧ di ≠ 7 ∧ di ≠ 3) := by omega
+  rcases hc with h | h | h | h | ⟨h0, h1, h7, h3⟩
+  · subst h; simp
+  · subst h; simp
+  · subst h; simp
+  · subst h; simp
+  · simp [h0, h1, h7, h3]
+
+/-- **`uplink_fields()` reports the same values as the single-field functions** on every roll-call
+    interrogation (UF 4/5/20/21) of at least 32 bits: DI and RR are the bit fields; the lockout
+    flag is `lockout()`; the interrogator code is `ic()` (which is `None` exactly for
+    DI ∉ {0, 1, 3, 7}, where the record keeps the empty string); the register is `bds()` (`None`
+    exactly for RR ≤ 15, where the record keeps the empty string); PR is `pr()` = `None`; RRS is the
+    sub-field selected by DI. -/
+theorem uplink_fields_agrees_rollcall (bits : Bits) (h32 : 32 ≤ bits.length)
+    (hr : isRollCall (ufB bits) = true) :
+    (uplinkFields bits).di = some (bin2int (slice 13 16 bits)) ∧
+    (uplinkFields bits).rr = some (bin2int (slice 8 13 bits)) ∧
+    uplinkLockout bits = some (uplinkFields bits).los ∧
+    (uplinkFields bits).ic = (uplinkIc bits).getD "" ∧
+    (uplinkIc bits = none ↔ ¬ (bin2int (slice 13 16 bits) = 0 ∨ bin2int (slice 13 16 bits) = 1 ∨
+      bin2int (slice 13 16 bits) = 3 ∨ bin2int (slice 13 16 bits) = 7)) ∧
+    (uplinkFields bits).bds = (uplinkBds bits).getD "" ∧
+    (uplinkBds bits = none ↔ bin2int (slice 8 13 bits) ≤ 15) ∧
+    (uplinkFields bits).pr = uplinkPr bits ∧ uplinkPr bits = none ∧
+    (uplinkFields bits).rrs =
+      (if bin2int (slice 13 16 bits) = 7 then some (bin2int (slice 20 24 bits))
+       else if bin2int (slice 13 16 bits) = 3 then some (bin2int (slice 23 27 bits)) else none) := by
+  rw [uplinkFields_spec_rollcall bits h32 hr, uplinkLockout_spec bits h32,
+    uplinkIc_spec_rollcall bits h32 hr, uplinkBds_spec bits h32, uplinkPr_spec bits (by omega)]
+  have e1 : (isRollCall (ufB bits) = true) = True := by simp [hr]
+  have e2 : (ufB bits = 11) = False := by simp [rollCall_ne_11 hr]
+  simp only [e1, e2, if_true, if_false, true_and]
+  generalize bin2int (slice 13 16 bits) = di
+  have hc : di = 0 ∨ di = 1 ∨ di = 7 ∨ di = 3 ∨ (di ≠ 0 ∧ di ≠ 1 ∧ di ≠ 7 ∧ di ≠ 3) := by omega
+  refine ⟨?_, ?_, ?_, ?_, ?_⟩
+  · rcases hc with h | h | h | h | ⟨h0, h1, h7, h3⟩
+    · subst h; simp
+    · subst h; simp
+    · subst h; simp
+    · subst h; simp
+    · simp [h0, h1, h7, h3]
+  · rcases hc with h | h | h | h | ⟨h0, h1, h7, h3⟩
+    · subst h; simp
+    · subst h; simp
+    · subst h; simp
+    · subst h; simp
+    · simp [h0, h1, h7, h3]
+  · by_cases h : 15 < bin2int (slice 8 13 bits) <;> simp [h]
+  · by_cases h : 15 < bin2int (slice 8 13 bits)
+    · simp [h]
+    · simp [h]; omega
+  · trivial
+
+/-- formats other than UF 4/5/11/20/21: the record of `uplink_fields()` is empty -/
+theorem uplink_fields_other_uf (bits : Bits) (h11 : ufB bits ≠ 11) (hr : isRollCall (ufB bits) = false) :
+    uplinkFields bits = ⟨none, "", false, none, none, none, ""⟩ := by
+  unfold uplinkFields
+  simp [h11, hr]
+
+/-! ### encoder round trip: an interrogation header built from its fields decodes to those fields
+
+  Annex 10 vol IV 3.1.2.6.1 (UF 4/5/20/21): `UF:5 PC:3 RR:5 DI:3 SD:16`, followed by anything
+  (`rest`: MA and/or AP). -/
+
+/-- For every roll-call format, every PC, RR, DI and every 16-bit SD value, whatever follows the
+    header: `uf()` is the placed UF, `uplink_fields()` reports the placed RR and DI, `bds()` is the
+    register `RR − 16` / RRS for RR > 15, and `ic()` / `lockout()` / RRS read the sub-fields of SD
+    selected by DI (IIS = SD bits 1–4, RRS = SD bits 5–8 and LOS = SD bit 10 for DI = 7; SIS = SD
+    bits 1–6, LSS = SD bit 7 and RRS = SD bits 8–11 for DI = 3). -/
+theorem uplink_header_roundtrip (uf pc rr di sd : Nat) (huf : uf = 4 ∨ uf = 5 ∨ uf = 20 ∨ uf = 21)
+    (hpc : pc < 8) (hrr : rr < 32) (hdi : di < 8) (hsd : sd < 65536) (rest : Bits) :
+    let bits := build [(5, uf), (3, pc), (5, rr), (3, di), (16, sd)] ++ rest
+    ufB bits = uf ∧
+    (uplinkFields bits).rr = some rr ∧ (uplinkFields bits).di = some di ∧
+    uplinkBds bits =
+      (if 15 < rr then some (hexDigitStr (rr - 16) ++
+          hexDigitStr (if di = 7 then sd / 256 % 16 else if di = 3 then sd / 32 % 16 else 0))
+       else none) ∧
+    (uplinkFields bits).rrs =
+      (if di = 7 then some (sd / 256 % 16) else if di = 3 then some (sd / 32 % 16) else none) ∧
+    uplinkIc bits =
+      (if di = 0 ∨ di = 1 ∨ di = 7 then some ("II" ++ toString (sd / 4096))
+       else if di = 3 then some ("SI" ++ toString (sd / 1024)) else none) ∧
+    uplinkLockout bits =
+      some (if di = 1 ∨ di = 7 then decide (sd / 64 % 2 = 1)
+        else if di = 3 then decide (sd / 512 % 2 = 1) else false) ∧
+    uplinkPr bits = none := by
+  intro bits
+  have h32 : 32 ≤ bits.length := by simp [bits, build_length]
+  have S : ∀ a b, a ≤ b → b ≤ 32 → bin2int (slice a b bits) =
+      ((((uf * 8 + pc) * 32 + rr) * 8 + di) * 65536 + sd) / 2 ^ (32 - b) % 2 ^ (b - a) :=
+    fun a b hab hb => Uplink.header_slice uf pc rr di sd (by omega) hpc hrr hdi hsd rest a b hab hb
+  have s_uf : bin2int (slice 0 5 bits) = uf := by rw [S 0 5 (by omega) (by omega)]; omega
+  have s_rr : bin2int (slice 8 13 bits) = rr := by rw [S 8 13 (by omega) (by omega)]; omega
+  have s_di : bin2int (slice 13 16 bits) = di := by rw [S 13 16 (by omega) (by omega)]; omega
+  have s_iis : bin2int (slice 16 20 bits) = sd / 4096 := by rw [S 16 20 (by omega) (by omega)]; omega
+  have s_sis : bin2int (slice 16 22 bits) = sd / 1024 := by rw [S 16 22 (by omega) (by omega)]; omega
+  have s_rrs7 : bin2int (slice 20 24 bits) = sd / 256 % 16 := by rw [S 20 24 (by omega) (by omega)]; omega
+  have s_rrs3 : bin2int (slice 23 27 bits) = sd / 32 % 16 := by rw [S 23 27 (by omega) (by omega)]; omega
+  have s_los : bin2int (slice 25 26 bits) = sd / 64 % 2 := by rw [S 25 26 (by omega) (by omega)]; omega
+  have s_lss : bin2int (slice 22 23 bits) = sd / 512 % 2 := by rw [S 22 23 (by omega) (by omega)]; omega
+  have hu : ufB bits = uf := by rw [ufB_spec, s_uf]; omega
+  have hr : isRollCall (ufB bits) = true := by
+    rw [hu]; rcases huf with h | h | h | h <;> subst h <;> decide
+  have hF := uplink_fields_agrees_rollcall bits h32 hr
+  refine ⟨hu, ?_, ?_, ?_, ?_, ?_, ?_, hF.2.2.2.2.2.2.2.2.1⟩
+  · rw [hF.2.1, s_rr]
+  · rw [hF.1, s_di]
+  · rw [uplinkBds_spec bits h32, s_rr, s_di, s_rrs7, s_rrs3]; simp [hr]
+  · rw [hF.2.2.2.2.2.2.2.2.2, s_di, s_rrs7, s_rrs3]
+  · rw [uplinkIc_spec_rollcall bits h32 hr, s_di, s_iis, s_sis]
+  · rw [uplinkLockout_spec bits h32, Uplink.getD_eq_decide bits 25 (by omega),
+      Uplink.getD_eq_decide bits 22 (by omega), s_di, s_los, s_lss]; simp [hr]
+
+/-- the same with the sub-fields of SD placed explicitly, DI = 7 (Annex 10 vol IV 3.1.2.6.1.4.1 f:
+    `IIS:4 RRS:4 spare:1 LOS:1 spare:2 TMS:4`): `ic()` = `II` + IIS, `lockout()` = LOS,
+    `bds()` = register (RR − 16, RRS) -/
+theorem uplink_roundtrip_di7 (uf pc rr iis rrs s1 los s2 tms : Nat)
+    (huf : uf = 4 ∨ uf = 5 ∨ uf = 20 ∨ uf = 21) (hpc : pc < 8) (hrr : rr < 32) (hiis : iis < 16)
+    (hrrs : rrs < 16) (hs1 : s1 < 2) (hlos : los < 2) (hs2 : s2 < 4) (htms : tms < 16) (rest : Bits) :
+    let bits := build [(5, uf), (3, pc), (5, rr), (3, 7), (4, iis), (4, rrs), (1, s1), (1, los),
+      (2, s2), (4, tms)] ++ rest
+    ufB bits = uf ∧
+    uplinkFields bits = ⟨some 7, "II" ++ toString iis, decide (los = 1), none, some rr, some rrs,
+      if 15 < rr then hexDigitStr (rr - 16) ++ hexDigitStr rrs else ""⟩ ∧
+    uplinkBds bits = (if 15 < rr then some (hexDigitStr (rr - 16) ++ hexDigitStr rrs) else none) ∧
+    uplinkIc bits = some ("II" ++ toString iis) ∧
+    uplinkLockout bits = some (decide (los = 1)) ∧ uplinkPr bits = none := by
+  intro bits
+  have hl : (build [(5, uf), (3, pc), (5, rr), (3, 7), (4, iis), (4, rrs), (1, s1), (1, los),
+      (2, s2), (4, tms)]).length = 32 := by simp [build_length]
+  have h32 : 32 ≤ bits.length := by simp [bits, build_length]
+  have hv : bin2int (build [(5, uf), (3, pc), (5, rr), (3, 7), (4, iis), (4, rrs), (1, s1), (1, los),
+      (2, s2), (4, tms)]) =
+      ((((((((uf * 8 + pc) * 32 + rr) * 8 + 7) * 16 + iis) * 16 + rrs) * 2 + s1) * 2 + los) * 4 + s2) * 16
+        + tms := by
+    simp only [build, Uplink.bin2int_app, List.append_nil, List.length_append, natToBits_length,
+      bin2int_natToBits_of_lt (show uf < 2 ^ 5 by omega), bin2int_natToBits_of_lt (show pc < 2 ^ 3 by omega),
+      bin2int_natToBits_of_lt (show rr < 2 ^ 5 by omega), bin2int_natToBits_of_lt (show 7 < 2 ^ 3 by omega),
+      bin2int_natToBits_of_lt (show iis < 2 ^ 4 by omega), bin2int_natToBits_of_lt (show rrs < 2 ^ 4 by omega),
+      bin2int_natToBits_of_lt (show s1 < 2 ^ 1 by omega), bin2int_natToBits_of_lt (show los < 2 ^ 1 by omega),
+      bin2int_natToBits_of_lt (show s2 < 2 ^ 2 by omega), bin2int_natToBits_of_lt (show tms < 2 ^ 4 by omega)]
+    omega
+  have S : ∀ a b, a ≤ b → b ≤ 32 → bin2int (slice a b bits) =
+      (((((((((uf * 8 + pc) * 32 + rr) * 8 + 7) * 16 + iis) * 16 + rrs) * 2 + s1) * 2 + los) * 4 + s2) * 16
+        + tms) / 2 ^ (32 - b) % 2 ^ (b - a) := by
+    intro a b hab hb
+    rw [Uplink.build_slice _ rest a b hab (by omega), hl, hv]
+  have s_uf : bin2int (slice 0 5 bits) = uf := by rw [S 0 5 (by omega) (by omega)]; omega
+  have s_rr : bin2int (slice 8 13 bits) = rr := by rw [S 8 13 (by omega) (by omega)]; omega
+  have s_di : bin2int (slice 13 16 bits) = 7 := by rw [S 13 16 (by omega) (by omega)]; omega
+  have s_iis : bin2int (slice 16 20 bits) = iis := by rw [S 16 20 (by omega) (by omega)]; omega
+  have s_rrs7 : bin2int (slice 20 24 bits) = rrs := by rw [S 20 24 (by omega) (by omega)]; omega
+  have s_los : bin2int (slice 25 26 bits) = los := by rw [S 25 26 (by omega) (by omega)]; omega
+  have hu : ufB bits = uf := by rw [ufB_spec, s_uf]; omega
+  have hr : isRollCall (ufB bits) = true := by
+    rw [hu]; rcases huf with h | h | h | h <;> subst h <;> decide
+  refine ⟨hu, ?_, ?_, ?_, ?_, (uplink_fields_agrees_rollcall bits h32 hr).2.2.2.2.2.2.2.2.1⟩
+  · rw [uplinkFields_spec_rollcall bits h32 hr, Uplink.getD_eq_decide bits 25 (by omega),
+      s_di, s_rr, s_iis, s_rrs7, s_los]; simp
+  · rw [uplinkBds_spec bits h32, s_rr, s_di, s_rrs7]; simp [hr]
+  · rw [uplinkIc_spec_rollcall bits h32 hr, s_di, s_iis]; simp
+  · rw [uplinkLockout_spec bits h32, Uplink.getD_eq_decide bits 25 (by omega), s_di, s_los]; simp [hr]
+
+/-- the same for DI = 3 (Annex 10 vol IV 3.1.2.6.1.4.1 g: `SIS:6 LSS:1 RRS:4 spare:5`):
+    `ic()` = `SI` + SIS, `lockout()` = LSS, `bds()` = register (RR − 16, RRS) -/
+theorem uplink_roundtrip_di3 (uf pc rr sis lss rrs sp : Nat)
+    (huf : uf = 4 ∨ uf = 5 ∨ uf = 20 ∨ uf = 21) (hpc : pc < 8) (hrr : rr < 32) (hsis : sis < 64)
+    (hlss : lss < 2) (hrrs : rrs < 16) (hsp : sp < 32) (rest : Bits) :
+    let bits := build [(5, uf), (3, pc), (5, rr), (3, 3), (6, sis), (1, lss), (4, rrs), (5, sp)] ++ rest
+    ufB bits = uf ∧
+    uplinkFields bits = ⟨some 3, "SI" ++ toString sis, decide (lss = 1), none, some rr, some rrs,
+      if 15 < rr then hexDigitStr (rr - 16) ++ hexDigitStr rrs else ""⟩ ∧
+    uplinkBds bits = (if 15 < rr then some (hexDigitStr (rr - 16) ++ hexDigitStr rrs) else none) ∧
+    uplinkIc bits = some ("SI" ++ toString sis) ∧
+    uplinkLockout bits = some (decide (lss = 1)) ∧ uplinkPr bits = none := by
+  intro bits
+  have hl : (build [(5, uf), (3, pc), (5, rr), (3, 3), (6, sis), (1, lss), (4, rrs), (5, sp)]).length = 32 := by
+    simp [build_length]
+  have h32 : 32 ≤ bits.length := by simp [bits, build_length]
+  have hv : bin2int (build [(5, uf), (3, pc), (5, rr), (3, 3), (6, sis), (1, lss), (4, rrs), (5, sp)]) =
+      ((((((uf * 8 + pc) * 32 + rr) * 8 + 3) * 64 + sis) * 2 + lss) * 16 + rrs) * 32 + sp := by
+    simp only [build, Uplink.bin2int_app, List.append_nil, List.length_append, natToBits_length,
+      bin2int_natToBits_of_lt (show uf < 2 ^ 5 by omega), bin2int_natToBits_of_lt (show pc < 2 ^ 3 by omega),
+      bin2int_natToBits_of_lt (show rr < 2 ^ 5 by omega), bin2int_natToBits_of_lt (show 3 < 2 ^ 3 by omega),
+      bin2int_natToBits_of_lt (show sis < 2 ^ 6 by omega), bin2int_natToBits_of_lt (show lss < 2 ^ 1 by omega),
+      bin2int_natToBits_of_lt (show rrs < 2 ^ 4 by omega), bin2int_natToBits_of_lt (show sp < 2 ^ 5 by omega)]
+    omega
+  have S : ∀ a b, a ≤ b → b ≤ 32 → bin2int (slice a b bits) =
+      (((((((uf * 8 + pc) * 32 + rr) * 8 + 3) * 64 + sis) * 2 + lss) * 16 + rrs) * 32 + sp)
+        / 2 ^ (32 - b) % 2 ^ (b - a) := by
+    intro a b hab hb
+    rw [Uplink.build_slice _ rest a b hab (by omega), hl, hv]
+  have s_uf : bin2int (slice 0 5 bits) = uf := by rw [S 0 5 (by omega) (by omega)]; omega
+  have s_rr : bin2int (slice 8 13 bits) = rr := by rw [S 8 13 (by omega) (by omega)]; omega
+  have s_di : bin2int (slice 13 16 bits) = 3 := by rw [S 13 16 (by omega) (by omega)]; omega
+  have s_sis : bin2int (slice 16 22 bits) = sis := by rw [S 16 22 (by omega) (by omega)]; omega
+  have s_rrs3 : bin2int (slice 23 27 bits) = rrs := by rw [S 23 27 (by omega) (by omega)]; omega
+  have s_lss : bin2int (slice 22 23 bits) = lss := by rw [S 22 23 (by omega) (by omega)]; omega
+  have hu : ufB bits = uf := by rw [ufB_spec, s_uf]; omega
+  have hr : isRollCall (ufB bits) = true := by
+    rw [hu]; rcases huf with h | h | h | h <;> subst h <;> decide
+  refine ⟨hu, ?_, ?_, ?_, ?_, (uplink_fields_agrees_rollcall bits h32 hr).2.2.2.2.2.2.2.2.1⟩
+  · rw [uplinkFields_spec_rollcall bits h32 hr, Uplink.getD_eq_decide bits 22 (by omega),
+      s_di, s_rr, s_sis, s_rrs3, s_lss]; simp
+  · rw [uplinkBds_spec bits h32, s_rr, s_di, s_rrs3]; simp [hr]
+  · rw [uplinkIc_spec_rollcall bits h32 hr, s_di, s_sis]; simp
+  · rw [uplinkLockout_spec bits h32, Uplink.getD_eq_decide bits 22 (by omega), s_di, s_lss]; simp [hr]
+
+/-- UF 11 (Annex 10 vol IV 3.1.2.5.2: `UF:5 PR:4 IC:4 CL:3`, then 16 spare bits and AP): `pr()`,
+    `ic()` and `uplink_fields()` return the placed PR and the interrogator code selected by CL -/
+theorem uplink_roundtrip_uf11 (pr ic cl : Nat) (hprr : pr < 16) (hic : ic < 16) (hcl : cl < 8) (rest : Bits) :
+    let bits := build [(5, 11), (4, pr), (4, ic), (3, cl)] ++ rest
+    ufB bits = 11 ∧ uplinkPr bits = some pr ∧
+    uplinkIc bits = some (if cl = 0 then "II" ++ toString ic
+      else if cl ≤ 4 then "SI" ++ toString (ic + 16 * (cl - 1)) else "") ∧
+    (uplinkFields bits).pr = some pr ∧ some (uplinkFields bits).ic = uplinkIc bits ∧
+    uplinkBds bits = none ∧ uplinkLockout bits = none := by
+  intro bits
+  have hl : (build [(5, 11), (4, pr), (4, ic), (3, cl)]).length = 16 := by simp [build_length]
+  have h16 : 16 ≤ bits.length := by simp [bits, build_length]
+  have hv : bin2int (build [(5, 11), (4, pr), (4, ic), (3, cl)]) = ((11 * 16 + pr) * 16 + ic) * 8 + cl := by
+    simp only [build, Uplink.bin2int_app, List.append_nil, List.length_append, natToBits_length,
+      bin2int_natToBits_of_lt (show 11 < 2 ^ 5 by omega), bin2int_natToBits_of_lt (show pr < 2 ^ 4 by omega),
+      bin2int_natToBits_of_lt (show ic < 2 ^ 4 by omega), bin2int_natToBits_of_lt (show cl < 2 ^ 3 by omega)]
+    omega
+  have S : ∀ a b, a ≤ b → b ≤ 16 → bin2int (slice a b bits) =
+      (((11 * 16 + pr) * 16 + ic) * 8 + cl) / 2 ^ (16 - b) % 2 ^ (b - a) := by
+    intro a b hab hb
+    rw [Uplink.build_slice _ rest a b hab (by omega), hl, hv]
+  have s_uf : bin2int (slice 0 5 bits) = 11 := by rw [S 0 5 (by omega) (by omega)]; omega
+  have s_pr : bin2int (slice 5 9 bits) = pr := by rw [S 5 9 (by omega) (by omega)]; omega
+  have s_ic : bin2int (slice 9 13 bits) = ic := by rw [S 9 13 (by omega) (by omega)]; omega
+  have s_cl : bin2int (slice 13 16 bits) = cl := by rw [S 13 16 (by omega) (by omega)]; omega
+  have hu : ufB bits = 11 := by rw [ufB_spec, s_uf]; rfl
+  have hP : uplinkPr bits = some pr := by rw [uplinkPr_spec bits h16, s_pr]; simp [hu]
+  have hA := uplink_fields_agrees_uf11 bits hu
+  refine ⟨hu, hP, ?_, hA.1.trans hP, hA.2, ?_, ?_⟩
+  · rw [uplinkIc_spec_uf11 bits h16 hu, s_cl, s_ic]
+  · simp [uplinkBds, hu, isRollCall]
+  · simp [uplinkLockout, hu, isRollCall]
+
+/-- concrete interrogations; the same four frames were given to the real `uplink.py`
+    (`20AF3040ABCDEF`: UF 4, RR 21, DI 7, IIS 3, RRS 0, LOS 1 → BDS `50`, `II3`, locked out;
+     `28AB03E0ABCDEF`: UF 5, RR 21, DI 3, SIS 0, LSS 1, RRS 15 → `5F`, `SI0`;
+     `5F2A0000ABCDEF`: UF 11, PR 14, IC 5, CL 2 → `SI21`;
+     a 112-bit UF 20 with RRS 12 → `5C`) -/
+example :
+    (let b := hex2bin "20AF3040ABCDEF"
+     ufB b = 4 ∧ uplinkBds b = some "50" ∧ uplinkPr b = none ∧ uplinkIc b = some "II3" ∧
+     uplinkLockout b = some true ∧
+     uplinkFields b = ⟨some 7, "II3", true, none, some 21, some 0, "50"⟩) ∧
+    (let b := hex2bin "28AB03E0ABCDEF"
+     ufB b = 5 ∧ uplinkBds b = some "5F" ∧ uplinkIc b = some "SI0" ∧ uplinkLockout b = some true ∧
+     uplinkFields b = ⟨some 3, "SI0", true, none, some 21, some 15, "5F"⟩) ∧
+    (let b := hex2bin "5F2A0000ABCDEF"
+     ufB b = 11 ∧ uplinkBds b = none ∧ uplinkPr b = some 14 ∧ uplinkIc b = some "SI21" ∧
+     uplinkLockout b = none ∧ uplinkFields b = ⟨none, "SI21", false, some 14, none, none, ""⟩) ∧
+    (let b := hex2bin "A0AF3C40000000000000000ABCDE"
+     ufB b = 20 ∧ uplinkBds b = some "5C" ∧ uplinkIc b = some "II3" ∧ uplinkLockout b = some true) := by
+  decide +kernel
+
+/-- the example asked for: UF = 4, RR = 21 (BDS1 = 5), DI = 7, RRS = 0 gives `bds() = "50"`; the
+    built header is the frame `20AF3040…` above, and the hypotheses of the theorems are met -/
+example : build [(5, 4), (3, 0), (5, 21), (3, 7), (4, 3), (4, 0), (1, 0), (1, 1), (2, 0), (4, 0)]
+      ++ natToBits 24 0xABCDEF = hex2bin "20AF3040ABCDEF" ∧
+    uplinkBds (build [(5, 4), (3, 0), (5, 21), (3, 7), (4, 3), (4, 0), (1, 0), (1, 1), (2, 0), (4, 0)]
+      ++ natToBits 24 0xABCDEF) = some "50" ∧
+    build [(5, 4), (3, 0), (5, 21), (3, 7), (16, 0x3040)] ++ natToBits 24 0xABCDEF
+      = hex2bin "20AF3040ABCDEF" ∧
+    32 ≤ (hex2bin "20AF3040ABCDEF").length ∧ isRollCall (ufB (hex2bin "20AF3040ABCDEF")) = true ∧
+    hexDigitStr (21 - 16) ++ hexDigitStr 0 = "50" := by
+  decide +kernel
 
 end PyModeS.C18
